@@ -580,7 +580,7 @@ def lift_word(src, loc, word, where):
         var, b = 'xs', '{\n    ' + arg + '(xs)\n}'
     else:
         raise AssembleError('%s: word "%s": binding `%s` is neither a closure nor a function path' % (where, word, arg[:60]))
-    fn = 'fn verif_word_%s(%s: &mut Xstate) -> Xresult %s' % (_mangle(word), var, b)
+    fn = 'fn verif_word_%s(%s: &mut State) -> Xresult %s' % (_mangle(word), var, b)
     return fn, l0, l1, st
 
 
